@@ -180,7 +180,7 @@ def _kani_cmd(crate, full, harness_timeout, jobs, playback):
     return cmd
 
 
-def run_kani(crate, prefix, harnesses, harness_timeout=600, tag="run"):
+def run_kani(crate, prefix, harnesses, harness_timeout=600, tag="run", heavy=()):
     """crate: 'deblock' | 'yuv' | 'h263'; prefix: module path of the proofs; returns {short name: KResult}.
     Pass 1: all harnesses in parallel (-j). Pass 2: the failed ones again, sequentially, with concrete playback
     (Kani refuses --concrete-playback together with --jobs)."""
@@ -191,13 +191,21 @@ def run_kani(crate, prefix, harnesses, harness_timeout=600, tag="run"):
     # the Kani driver keeps the output of every harness of an invocation in memory (192 deblock geometry harnesses took 56 GB and were
     # OOM-killed): large lists are run in chunks
     CHUNK = int(os.environ.get("VERIF_KANI_CHUNK", "48"))
+    # `heavy` harnesses (large images: the driver needs several GB per running harness) run apart, four at a time
+    hv = set(prefix + "::" + h for h in heavy)
+    groups = []
+    light = [f for f in full if f not in hv]
+    for c0 in range(0, len(light), CHUNK):
+        groups.append((light[c0:c0 + CHUNK], NCPU))
+    hlist = [f for f in full if f in hv]
+    for c0 in range(0, len(hlist), 12):
+        groups.append((hlist[c0:c0 + 12], 4))
     text, secs, cmd = "", 0.0, None
-    for c0 in range(0, len(full), CHUNK):
-        part = full[c0:c0 + CHUNK]
-        jobs = max(1, min(NCPU, len(part)))
+    for gi, (part, maxj) in enumerate(groups):
+        jobs = max(1, min(maxj, len(part)))
         cmd = _kani_cmd(crate, part, harness_timeout, jobs, False)
         waves = (len(part) + jobs - 1) // jobs
-        rc, t1, s1 = sh(cmd, timeout=300 + waves * (harness_timeout + 30), out_path=logp if c0 == 0 else logp + ".%d" % (c0 // CHUNK))
+        rc, t1, s1 = sh(cmd, timeout=300 + waves * (harness_timeout + 30), out_path=logp if gi == 0 else logp + ".%d" % gi)
         text += t1 + "\n"
         secs += s1
     res = parse_kani_log(text, full)
